@@ -124,17 +124,18 @@ PER_SEGMENT = "'.'.join((_S_ + '_' if _S_ in utils.RESERVED_NAMES else _S_ for _
 
 
 def per_segment_disambiguation(qual: str, attr: str):
-    """(ok, shown): the property `qual` returns its dotted `self.<attr>` with every reserved SEGMENT suffixed by one underscore -
-    either directly, or by delegating to FieldHeader(self.<attr>).disambiguated when that property does so itself."""
+    """(ok, shown, fi): the property `qual` returns its dotted `self.<attr>` with every reserved SEGMENT suffixed by one underscore.
+    Decided on the normal form (vlib/pynorm.py), so helpers, delegation to a sibling property, hoisted constants, loops written as
+    comprehensions etc. are looked through."""
+    from ..pymodel import nmatch, nreturn
     m = _pm()
     fi = m.func(qual)
-    rets = [n for n in ast.walk(fi.node) if isinstance(n, ast.Return)]
-    if len(rets) != 1:
-        return False, f"{len(rets)} returns", fi
-    v = rets[0].value
-    if pmatch(PER_SEGMENT.format(attr=attr), v) is not None:
-        return True, ast.unparse(v), fi
-    if qual != "gapic.schema.wrappers.FieldHeader.disambiguated" and pmatch(f"FieldHeader(self.{attr}).disambiguated", v) is not None:
-        ok, shown, _ = per_segment_disambiguation("gapic.schema.wrappers.FieldHeader.disambiguated", "raw")
-        return ok, ast.unparse(v) + " -> " + shown, fi
-    return False, ast.unparse(v), fi
+    b = nmatch(m, PER_SEGMENT.format(attr=attr), fi)
+    if b is None and qual != "gapic.schema.wrappers.FieldHeader.disambiguated":
+        # delegation to the sibling property of another class: FieldHeader(self.<attr>).disambiguated
+        e = nreturn(m, fi, keep={"FieldHeader", "disambiguated"})
+        if e is not None and pmatch(f"FieldHeader(self.{attr}).disambiguated", e) is not None:
+            ok, shown, _ = per_segment_disambiguation("gapic.schema.wrappers.FieldHeader.disambiguated", "raw")
+            return ok, ast.unparse(e) + " -> " + shown, fi
+    e = nreturn(m, fi)
+    return b is not None, (ast.unparse(e)[:160] if e is not None else "<not a single expression>"), fi
